@@ -336,6 +336,7 @@ def vm_compute_failing_cells(per_macro=12):
 # --------------------------------------------------------------------------------------
 class C20(vlib.PropertyCheck):
     id = 'C20'
+    env_passes = False     # the runtime debug level is part of this property's cases
     family = 'c20'
     harness = 'c20.c'
     nontrivial_rule = ('the probe matrix is enumerated completely: every macro of the generated families (and the four msgs.c '
